@@ -45,6 +45,7 @@ type profile struct {
 	reqKinds     []string
 	limitRunPct  int // percentage of histories that start by driving one subscription to the count limit
 	mutatePct    int // percentage of service messages structurally mutated (only C15 checks apply then)
+	hauthPct     int // percentage of histories run with header authentication configured
 	burstPct     int // percentage of steps that issue 2-4 stimuli without settling in between
 }
 
@@ -80,7 +81,7 @@ func stdUniverse() *universe {
 var valuePool = []aval{"p0", "p1", "p2", "p5", "r:m.a", "r:m.b", "r:m.c", "r:m.self", "r:c.a", "r:m.err", "s:m.b", "d3", "d4", "r:cid.{cid}.m"}
 
 func baseProfile(name string) profile {
-	return profile{name: name, steps: 45, maxClients: 2, wConnect: 3, wRequest: 30, wAnswer: 40, wEvent: 14, wToken: 2,
+	return profile{hauthPct: 20, name: name, steps: 45, maxClients: 2, wConnect: 3, wRequest: 30, wAnswer: 40, wEvent: 14, wToken: 2,
 		wReset: 2, wDisconnect: 1, wEvict: 2, wRawFrame: 1, wTokenReset: 1, wSilent: 2, wHTTP: 3,
 		refThrottle: []int{0}, rstThrottle: []int{0}, versions: []string{"1.2.3"}, denyPct: 12, getFailPct: 8, malformedPct: 4,
 		reqKinds:   []string{"subscribe", "subscribe", "subscribe", "unsubscribe", "get", "call", "new", "auth"},
@@ -204,6 +205,7 @@ type gen struct {
 	callN     int
 	qeSnap    map[string]bool
 	pqVariant uint64
+	metaN     int
 	kinds     map[string]int
 }
 
@@ -447,6 +449,21 @@ func (g *gen) answerOne(r *mockReq, drain bool) {
 		}
 	case "auth":
 		g.callN++
+		if isHTTPReq(r) && !drain {
+			// header authentication of an HTTP request: result, error or timeout, possibly with meta
+			switch g.r.intn(6) {
+			case 0:
+				w.answer(r, "timeout", nil, mq.ErrRequestTimeout)
+				return
+			case 1:
+				l, d := g.withMeta(r, "err:system.accessDenied", []byte(errJSON(reserr.CodeAccessDenied)))
+				w.answer(r, l, d, nil)
+				return
+			}
+			l, d := g.withMeta(r, fmt.Sprintf("result:p%d", g.callN), []byte(fmt.Sprintf(`{"result":%d}`, g.callN)))
+			w.answer(r, l, d, nil)
+			return
+		}
 		w.answer(r, fmt.Sprintf("result:p%d", g.callN), []byte(fmt.Sprintf(`{"result":%d}`, g.callN)), nil)
 	default:
 		// query request on an event subject
@@ -684,7 +701,13 @@ func (g *gen) httpGet() {
 	if g.r.chance(1, 12) {
 		path = pick(g.r, []string{"/api/m/a/", "/api/m.a", "/api/m//a", "/api/m/%2a", "/api/m/a%20b", "/api/", "/api/m/*"})
 	}
-	switch g.r.intn(10) {
+	switch g.r.intn(12) {
+	case 10:
+		g.kinds["http:put"]++
+		g.w.httpDo("PUT", path, query, pick(g.r, []string{`{"v":1}`, ""}))
+	case 11:
+		g.kinds["http:delete"]++
+		g.w.httpDo("DELETE", path, query, "")
 	case 0:
 		g.kinds["http:head"]++
 		g.w.httpDo("HEAD", path, query, "")
@@ -714,14 +737,37 @@ func (g *gen) withMeta(r *mockReq, label string, data []byte) (string, []byte) {
 	if data == nil || len(data) < 2 || data[len(data)-1] != '}' || !isHTTPReq(r) || !g.r.chance(1, 4) {
 		return label, data
 	}
-	st := pick(g.r, []int{301, 302, 307, 399, 400, 401, 404, 418, 500, 503, 599, 200, 204, 299, 600, 99, 0, -1})
-	g.kinds["answer:meta-status"]++
+	g.metaN++
+	var parts []string
+	if g.r.chance(3, 4) {
+		st := pick(g.r, []int{301, 302, 307, 399, 400, 401, 404, 418, 500, 503, 599, 200, 204, 299, 600, 99, 0, -1})
+		g.kinds["answer:meta-status"]++
+		parts = append(parts, fmt.Sprintf(`"status":%d`, st))
+		label = fmt.Sprintf("%s|meta=%d", label, st)
+	}
+	if g.r.chance(1, 2) {
+		// headers a service may set, and some it must not be able to set (C17)
+		g.kinds["answer:meta-header"]++
+		h := []string{fmt.Sprintf(`"X-Custom-%d":["v%d"]`, g.metaN, g.metaN), fmt.Sprintf(`"set-cookie":["a=%d"]`, g.metaN)}
+		switch g.r.intn(4) {
+		case 0:
+			h = append(h, `"content-type":["text/evil"]`)
+		case 1:
+			h = append(h, `"Access-Control-Allow-Origin":["http://evil"]`, `"access-control-allow-credentials":["evil"]`)
+		case 2:
+			h = append(h, `"x-multi":["1","2"]`)
+		}
+		parts = append(parts, `"header":{`+strings.Join(h, ",")+`}`)
+	}
+	if len(parts) == 0 {
+		return label, data
+	}
 	sep := ","
 	if strings.TrimSpace(string(data[:len(data)-1])) == "{" {
 		sep = ""
 	}
-	out := append(append([]byte{}, data[:len(data)-1]...), []byte(fmt.Sprintf(`%s"meta":{"status":%d}}`, sep, st))...)
-	return fmt.Sprintf("%s|meta=%d", label, st), out
+	out := append(append([]byte{}, data[:len(data)-1]...), []byte(sep+`"meta":{`+strings.Join(parts, ",")+`}}`)...)
+	return label, out
 }
 
 func (g *gen) silent() {
@@ -1132,6 +1178,7 @@ type historyResult struct {
 	RefThr  int            `json:"refThrottle"`
 	RstThr  int            `json:"resetThrottle"`
 	Flat    bool           `json:"flat"`
+	HAuth   bool           `json:"hauth,omitempty"`
 	Mutated bool           `json:"mutated,omitempty"`
 }
 
@@ -1140,8 +1187,11 @@ func runHistory(p profile, seed uint64, index int, keepSteps bool, wantSnap bool
 	r := newRng(seed*1000003 + uint64(index)*7919 + 17)
 	u := stdUniverse()
 	cfg := worldCfg{referenceThrottle: pick(r, p.refThrottle), resetThrottle: pick(r, p.rstThrottle), metrics: true, flat: r.chance(1, 3)}
+	if p.wHTTP > 0 && p.hauthPct > 0 && int(r.next()%100) < p.hauthPct {
+		cfg.hauth = true
+	}
 	w, err := newWorld(cfg, u)
-	hr := &historyResult{Seed: seed, Profile: p.name, Index: index, RefThr: cfg.referenceThrottle, RstThr: cfg.resetThrottle, Flat: cfg.flat}
+	hr := &historyResult{Seed: seed, Profile: p.name, Index: index, RefThr: cfg.referenceThrottle, RstThr: cfg.resetThrottle, Flat: cfg.flat, HAuth: cfg.hauth}
 	if err != nil {
 		hr.Viols = []violation{{Prop: "C20", Key: "start-failed", What: err.Error()}}
 		return hr
@@ -1154,11 +1204,11 @@ func runHistory(p profile, seed uint64, index int, keepSteps bool, wantSnap bool
 	if crashLog != nil {
 		crashLog.Truncate(0)
 		crashLog.Seek(0, 0)
-		fmt.Fprintf(crashLog, "# profile=%s seed=%d history=%d\n# config referenceThrottle=%d resetThrottle=%d flat=%s\n", p.name, seed, index, cfg.referenceThrottle, cfg.resetThrottle, b2s(cfg.flat))
+		fmt.Fprintf(crashLog, "# profile=%s seed=%d history=%d\n# config referenceThrottle=%d resetThrottle=%d flat=%s hauth=%s\n", p.name, seed, index, cfg.referenceThrottle, cfg.resetThrottle, b2s(cfg.flat), b2s(cfg.hauth))
 	}
 	g := &gen{r: r, w: w, p: p, u: u, kinds: map[string]int{}}
 	g.pqVariant = r.next() % 3
-	w.steps = append(w.steps, stepRec{Stim: fmt.Sprintf("# config referenceThrottle=%d resetThrottle=%d flat=%s", cfg.referenceThrottle, cfg.resetThrottle, b2s(cfg.flat))})
+	w.steps = append(w.steps, stepRec{Stim: fmt.Sprintf("# config referenceThrottle=%d resetThrottle=%d flat=%s hauth=%s", cfg.referenceThrottle, cfg.resetThrottle, b2s(cfg.flat), b2s(cfg.hauth))})
 	g.connect()
 	if p.limitRunPct > 0 && int(r.next()%100) < p.limitRunPct {
 		g.limitRun()
